@@ -6,6 +6,7 @@ CONSTANTS
   Quals = {10}
   MaxReads = 2
   Refs <- RefsTwo
+  UMIs = {1}
   Cap = 0
   MaxNs1 = {0, 2}
   Variant = "impl_D10"
